@@ -388,6 +388,105 @@ Section Sim.
   Qed.
 End Sim.
 
+(* ---------- a limit on the length of the chunk-size line keeps a parser within the hypotheses, and bounds the buffer ---------- *)
+Section Bounded.
+  Variable psize : list N -> csize.
+  Variable limit : nat.
+  Hypothesis limit_pos : 0 < limit.
+  Hypothesis empty_partial : psize [] = CPartial.
+  Hypothesis complete_stable : forall b p z t, psize b = CComplete p z -> psize (b ++ t) = CComplete p z.
+  Hypothesis error_stable : forall b t, psize b = CError -> psize (b ++ t) = CError.
+  Hypothesis complete_min : forall b p z, psize b = CComplete p z ->
+      1 <= p <= length b /\ psize (firstn p b) = CComplete p z /\ forall k, k < p -> psize (firstn k b) = CPartial.
+
+  Notation bp := (bounded limit psize).
+
+  Lemma bounded_empty : bp [] = CPartial.
+  Proof.
+    unfold bounded. rewrite empty_partial. cbn [length].
+    replace (limit <=? 0) with false by (symmetry; apply Nat.leb_gt; lia). reflexivity.
+  Qed.
+
+  Lemma bounded_complete_inv b p z : bp b = CComplete p z -> psize b = CComplete p z /\ p <= limit.
+  Proof.
+    unfold bounded. destruct (psize b) as [p' z'| |] eqn:E.
+    - destruct (limit <? p') eqn:L; [discriminate|]. intros H. inversion H; subst. apply Nat.ltb_ge in L. auto.
+    - destruct (limit <=? length b); discriminate.
+    - discriminate.
+  Qed.
+
+  Lemma bounded_complete_stable b p z t : bp b = CComplete p z -> bp (b ++ t) = CComplete p z.
+  Proof.
+    intros H. destruct (bounded_complete_inv _ _ _ H) as [E L].
+    unfold bounded. rewrite (complete_stable _ _ _ t E).
+    replace (limit <? p) with false by (symmetry; apply Nat.ltb_ge; exact L). reflexivity.
+  Qed.
+
+  Lemma bounded_error_stable b t : bp b = CError -> bp (b ++ t) = CError.
+  Proof.
+    unfold bounded. destruct (psize b) as [p z| |] eqn:E.
+    - destruct (limit <? p) eqn:L; [|discriminate]. intros _.
+      rewrite (complete_stable _ _ _ t E), L. reflexivity.
+    - destruct (limit <=? length b) eqn:L; [|discriminate]. intros _. apply Nat.leb_le in L.
+      destruct (psize (b ++ t)) as [p z| |] eqn:E2; [| |reflexivity].
+      + (* completed later: beyond the limit *)
+        destruct (complete_min _ _ _ E2) as (Hp & Hat & _).
+        assert (length b < p).
+        { destruct (Nat.lt_ge_cases (length b) p) as [G|G]; [exact G|exfalso].
+          assert (X : firstn p (b ++ t) = firstn p b).
+          { rewrite firstn_app. replace (p - length b) with 0 by lia. cbn [firstn]. apply app_nil_r. }
+          rewrite X in Hat.
+          pose proof (complete_stable _ _ _ (skipn p b) Hat) as Y. rewrite firstn_skipn in Y. congruence. }
+        replace (limit <? p) with true by (symmetry; apply Nat.ltb_lt; lia). reflexivity.
+      + rewrite app_length. replace (limit <=? length b + length t) with true by (symmetry; apply Nat.leb_le; lia). reflexivity.
+    - intros _. rewrite (error_stable _ t E). reflexivity.
+  Qed.
+
+  Lemma bounded_complete_min b p z :
+    bp b = CComplete p z ->
+    1 <= p <= length b /\ bp (firstn p b) = CComplete p z /\ forall k, k < p -> bp (firstn k b) = CPartial.
+  Proof.
+    intros H. destruct (bounded_complete_inv _ _ _ H) as [E L].
+    destruct (complete_min _ _ _ E) as (Hp & Hat & Hbefore).
+    split; [exact Hp|]. split.
+    - unfold bounded. rewrite Hat. replace (limit <? p) with false by (symmetry; apply Nat.ltb_ge; exact L). reflexivity.
+    - intros k Hk. unfold bounded. rewrite (Hbefore k Hk). rewrite firstn_length.
+      replace (limit <=? Nat.min k (length b)) with false by (symmetry; apply Nat.leb_gt; lia). reflexivity.
+  Qed.
+
+  (* what the sink keeps of an undecided chunk-size line is shorter than the limit *)
+  Lemma bounded_partial_short d : bp d = CPartial -> length d < limit.
+  Proof.
+    unfold bounded. destruct (psize d) as [p z| |].
+    - destruct (limit <? p); discriminate.
+    - destruct (limit <=? length d) eqn:L; [discriminate|]. intros _. apply Nat.leb_gt in L. exact L.
+    - discriminate.
+  Qed.
+
+  (* every state the sink reaches by whole exchanges is a good one: in particular the chunk-size line buffer stays below the limit *)
+  Lemma drive_keeps_good segs : forall st accs out,
+    good bp st -> let '(st1, _) := drive bp st segs accs out in st1 <> BErr -> good bp st1.
+  Proof.
+    induction segs as [|s r IH]; intros st accs out G; cbn [drive].
+    - intros _. exact G.
+    - pose proof (drive_chunk_sim bp bounded_empty bounded_complete_stable bounded_error_stable bounded_complete_min
+                    (length s + length accs + 1) st s accs out G ltac:(lia)) as D.
+      destruct (drive_chunk bp (length s + length accs + 1) st s accs out) as [[st1 out1] accs1].
+      destruct D as (_ & _ & D3 & _).
+      destruct st1; try (apply IH; apply D3; discriminate).
+      intros X. contradiction.
+  Qed.
+
+  Theorem chunk_size_line_buffer_below_limit segs st accs :
+    good bp st ->
+    match fst (drive bp st segs accs []) with BPrefix buf => length buf < limit | _ => True end.
+  Proof.
+    intros G. pose proof (drive_keeps_good segs st accs [] G) as H.
+    destruct (drive bp st segs accs []) as [st1 o]. cbn [fst].
+    destruct st1; try exact I. apply bounded_partial_short. apply (H ltac:(discriminate)).
+  Qed.
+End Bounded.
+
 (* ---------- the executable model's chunk-size parser meets the hypotheses ---------- *)
 Ltac break_match :=
   repeat match goal with
